@@ -55,6 +55,9 @@ def gen_le(rng, tier, seed):
             own = rng.choice(['public', 'random'])
             ops.append(['adv', d, own, rng.randrange(len(ADV_PAYLOADS)), rng.randrange(len(RSP_PAYLOADS))])
             adv[d] = own
+        elif r < 0.25 and adv:
+            # the advertising data changes while the advertiser is on the air
+            ops.append(['adv_update', rng.choice(sorted(adv)), rng.randrange(len(ADV_PAYLOADS))])
         elif r < 0.42:
             cands = [(a, b) for b in adv for a in range(n) if a != b and not linked(a, b)]
             if not cands:
@@ -193,6 +196,28 @@ def run_le(case):
                 for s in cx.scanning:  # a new advertising epoch: reports of an earlier one do not count
                     sim.loop.settle(vt_budget=1.0)
                     cx.adverts[s] = [x for x in cx.adverts[s] if not _same(x.address, cx.addr(d, own))]
+                sim.loop.advance(0.065)
+                _check_adverts(cx, d, mode(d))
+            elif kind == 'adv_update':
+                _, d, ai = op
+                if d not in cx.advertising:
+                    continue
+                dev = world[d].device
+                own, old_adv, rsp = cx.advertising[d]
+                new_adv = ADV_PAYLOADS[ai]
+                if dev.legacy_advertising_set is not None:
+                    st, t = sim.run(dev.legacy_advertising_set.set_advertising_data(new_adv), 10.0)
+                else:
+                    dev.advertising_data = new_adv
+                    st, t = sim.run(dev.send_sync_command(cx.hci.HCI_LE_Set_Advertising_Data_Command(advertising_data=new_adv)), 10.0)
+                if st != 'done' or t.exception() is not None:
+                    sim.violation_once('adv', f'advertising-data-update-failed:{mode(d)}', f'{st} {t.exception() if st == "done" else describe_task(t)}')
+                    break
+                sim.probe('advertising_data_changed_while_advertising')
+                cx.advertising[d] = (own, new_adv, rsp)
+                for s_ in cx.scanning:  # reports of the earlier data may still be in flight: let them land, then forget them
+                    sim.loop.settle(vt_budget=1.0)
+                    cx.adverts[s_] = [x for x in cx.adverts[s_] if not _same(x.address, cx.addr(d, own))]
                 sim.loop.advance(0.065)
                 _check_adverts(cx, d, mode(d))
             elif kind == 'scan':
